@@ -115,6 +115,13 @@ func TestTableRender(t *testing.T) {
 			}
 		}
 	}
+	// model keys that need (or must not get) escaping, at the root and one level down
+	trickyKeys := []string{"\x01", "\a", "\v", "\x1f", "\x7f", "\b\f\n\r\t", "\\", "\"", "/", "<&>", "\u00e9", "\u2028", "\U0010ffff", "\U0001f600", "", " ", "\u0080"}
+	for _, k := range trickyKeys {
+		root := resd{Kind: "m", M: map[string]rval{k: vals[0], "n": vals[4]}, C: []rval{}}
+		mid := resd{Kind: "m", M: map[string]rval{k: vals[0], k + "2": vals[5]}, C: []rval{}}
+		cases = append(cases, cse{[3]resd{root, mid, leafs[0]}})
+	}
 	enc.Encode(Rec{"count": len(cases) * 2, "roots": len(roots), "mids": len(mids), "leafs": len(leafs)})
 	const batch = 150
 	for _, encoding := range []string{"json", "jsonflat"} {
